@@ -390,7 +390,7 @@ def faults_for(rng, base, CL):
         variant('unknown:predict_type', True, put('cp', 'predict_type', 'bogus_predictor'))
         variant('unknown:predict_type:fmg', True, put('cp', 'predict_type', 'fmg'))
         lvl = rng.randint(1, n - 1)
-        variant('unused:initial_guess:coarse', None, at_level('sweeper_params', 'initial_guess', lvl, 'bogus_guess', 'spread'),
+        variant('unused:initial_guess:coarse', True, at_level('sweeper_params', 'initial_guess', lvl, 'bogus_guess', 'spread'),
                 info={'level': lvl})
         variant('conflict:coarse_nsweeps', True, at_level('level_params', 'nsweeps', n - 1, rng.choice([2, 3]), 1))
         bad_q = rng.choice(['GAUSS', 'RADAU-LEFT'])
